@@ -2,7 +2,9 @@ package main
 
 import (
 	"crypto/sha1"
+	"encoding/json"
 	"fmt"
+	"os"
 	"sort"
 	"strings"
 
@@ -241,6 +243,15 @@ func c09Execute(w *world.World, seed int64, e c09Entry, f1, f2 *simapi.Fault) *c
 	scratch := mon.Stats{}
 	target := e.Build(r)
 	key := world.NS + "/" + target
+	if os.Getenv("C09_DEBUG") != "" {
+		if s := w.GetSet(target); s != nil {
+			b, _ := json.Marshal(s.Spec.UpdateStrategy)
+			fmt.Fprintf(os.Stderr, "C09_DEBUG after build (fault=%v): strategy=%s replicas=%d trace-len=%d\n", f1 != nil, b, *s.Spec.Replicas, len(r.Trace))
+			if os.Getenv("C09_DEBUG") == "2" {
+				fmt.Fprintln(os.Stderr, strings.Join(r.Trace, "\n"))
+			}
+		}
+	}
 	w.Srv.RunGC()
 	w.DeliverAll()
 	others := []string{}
